@@ -136,3 +136,16 @@ PROPS["C06"] = dict(
         dict(test="^TestC06_RandomOrder$", quick=dict(checks=30, timeout=900), thorough=dict(checks=200, shards=6, timeout=3000)),
     ],
 )
+
+PROPS["C05"] = dict(
+    pkg="c05", level="exploration",
+    technique="rapid-generated stop scenarios with a harness-owned worker state (gated/slow appenders) and occupancy, sinks read back at the instant the call returns, /proc/self/fd scanning; real-time rolling-appender runs",
+    level_text="Exploration over configurations, occupancies and worker states: the harness fills the async buffer to a generated occupancy while the worker is parked in a gate (or slowed, or idle), issues Stop/Destroy, opens the gate a generated delay later and requires the call to return and every accepted item to be present in recorder, file, rolling file and console at that instant; every Refresh-reachable logger kind (incl. rolling-file async) is destroyed right after a burst; descriptors into the log directory must be gone afterwards, and a running 1 s rolling appender must never hold more than two.",
+    level_note="Liveness is judged as 'returned within 30 s + drain time once nothing is held back'. Trusted: /proc/self/fd as the descriptor oracle, the harness gate. Real-time runs assume the wall clock does not step.",
+    rule="generated stop scenarios; real-time rolling runs",
+    steps=[
+        dict(test="^Test(Regress_C05|C05_AsyncStop)$", quick=dict(checks=150, timeout=900), thorough=dict(checks=800, shards=8, timeout=3000)),
+        dict(test="^TestC05_Kinds$", quick=dict(checks=150, timeout=900), thorough=dict(checks=800, shards=8, timeout=3000)),
+        dict(test="^TestC05_RollingDescriptors$", quick=dict(timeout=900), thorough=dict(shards=4, timeout=3000)),
+    ],
+)
